@@ -187,6 +187,30 @@ impl Replayer {
                 // a brand-new context typing a text: deterministic, computed once per (cfg, text)
                 let steps = runs[rn].as_array().cloned().unwrap_or_default();
                 let key = format!("{}|{}", steps[0]["cfg"], subst(&steps[1]["text"], vars));
+                if !self.fresh_cache.contains_key(&key) && steps.len() == 2 && steps[1]["op"] == "type" {
+                    // the reference comes from an isolated process that only ever runs brand-new contexts of this configuration:
+                    // nothing the contexts of THIS process did (other configurations, warm caches, statics) can reach it
+                    if let Ok(cfg) = serde_json::from_value::<Cfg>(steps[0]["cfg"].clone()) {
+                        let ck = steps[0]["cfg"].to_string();
+                        if !self.fresh_servers.contains_key(&ck) {
+                            if let Some(srv) = crate::replay::FreshServer::start(&cfg) {
+                                self.fresh_servers.insert(ck.clone(), srv);
+                            }
+                        }
+                        let text = subst(&steps[1]["text"], vars);
+                        match self.fresh_servers.get_mut(&ck).and_then(|s| s.ask(&text)) {
+                            Some(o) if o.kind != "panic" => {
+                                self.rep.events += text.chars().count() as u64;
+                                self.rep.note("isolated_fresh_reference");
+                                self.fresh_cache.insert(key.clone(), o);
+                            }
+                            _ => {
+                                // (a panic or a dead server: fall back to the in-process run below, which reports panics)
+                                self.fresh_servers.remove(&ck);
+                            }
+                        }
+                    }
+                }
                 if let Some(o) = self.fresh_cache.get(&key) {
                     observations.insert(rn.clone(), vec![
                         Obsv { obs: Obs { kind: "none".into(), ..Default::default() }, committed: None, raw_keys: String::new() },
@@ -206,7 +230,17 @@ impl Replayer {
                 if cid != 1 {
                     if let Some(main) = ctx.as_ref() {
                         if !others.contains_key(&cid) {
-                            if let Ok(c2) = Ctx::new(&main.cfg, &main.user_home) {
+                            // id 2: same configuration; 3: no database directory (an empty dictionary); 4: other options
+                            let mut cfg2 = main.cfg.clone();
+                            match cid {
+                                3 => cfg2.db = false,
+                                4 => {
+                                    cfg2.english = !cfg2.english;
+                                    cfg2.smart = !cfg2.smart;
+                                }
+                                _ => {}
+                            }
+                            if let Ok(c2) = Ctx::new(&cfg2, &main.user_home) {
                                 others.insert(cid, c2);
                             }
                         }
@@ -243,9 +277,7 @@ impl Replayer {
                             if let Some((c, c2, chain)) = self.warm.remove(&warm_key) {
                                 if chain.len() < 4000 {
                                     pooled = Some(c);
-                                    if let Some(c2) = c2 {
-                                        others.insert(2, c2);
-                                    }
+                                    others = c2;
                                     self.warm_chain = chain;
                                 } else {
                                     self.warm_chain = Vec::new();
@@ -440,9 +472,9 @@ impl Replayer {
                 if let Some(mut c) = ctx.take() {
                     if !c.dead {
                         c.finish();
-                        let mut c2 = others.remove(&2);
-                        if let Some(c2) = c2.as_mut() {
-                            c2.finish();
+                        let mut c2 = std::mem::take(&mut others);
+                        for o in c2.values_mut() {
+                            o.finish();
                         }
                         let chain = std::mem::take(&mut self.warm_chain);
                         self.last_warm_chain = chain.clone();
